@@ -133,7 +133,7 @@ void BSCMatrix::print()
 **************************************************************/
 COOMatrix* COOMatrix::transpose()
 {
-    COOMatrix* T = new COOMatrix(n_rows, n_cols, idx2, idx1, vals);
+    COOMatrix* T = new COOMatrix(n_cols, n_rows, idx2, idx1, vals);
     return T;
 }
 
